@@ -653,13 +653,22 @@ def scenarios(tier, seed):
         if tier == 'thorough':
             combos += [(3, last), (4, None), (None, last), (1, 0), (0, 1), (last, 0), (None, 6), (rnd.randrange(DIM[m]), rnd.randrange(DIM[m]))]
         for dayc, dayh in combos:
-            for base in ((('zero', 'mixed') if (dayc, dayh) in ((0, 0), (0, None), (None, 0)) else ('zero',)) if tier == 'quick' else ('zero', 'mixed', 'heat', 'cool')):
-                prevs = ('none',) if base != 'zero' and tier == 'quick' else ('none', 'cool', 'heat')
+            special = (dayc, dayh) in ((0, 0), (0, None), (None, 0))
+            first_day = dayc == 0 or dayh == 0          # only then does the 48 h window reach into the previous month
+            if tier == 'quick':
+                bases = ('zero', 'mixed') if special else ('zero',)
+            else:
+                bases = ('zero', 'mixed', 'heat', 'cool') if special else ('zero', 'mixed')
+            for base in bases:
+                if tier == 'quick':
+                    prevs = ('none',) if base != 'zero' else ('none', 'cool', 'heat')
+                else:
+                    prevs = ('none', 'cool', 'heat') if first_day else ('none',)
                 for prev in prevs:
                     if dayc is None and dayh is None:
                         continue
                     scs.append(Scenario(m, dayc, dayh, base, prev))
-                    if base == 'zero' and prev == 'none':
+                    if base == 'zero' and prev == 'none' and (tier == 'quick' or (dayc, dayh) in combos[:6]):
                         # peak in the last / first hour of its day (day index arithmetic at the day boundaries)
                         hv = [(23, 23), (0, 0)] if tier == 'quick' else [(23, 23), (0, 0), (23, 0), (0, 23), (12, 12)]
                         for hc, hh in hv:
@@ -672,7 +681,7 @@ def scenarios(tier, seed):
 def l2_units(keys, tier, seed):
     us = []
     for sc in scenarios(tier, seed):
-        for n in ((12,) if tier == 'quick' else (12, 30)):
+        for n in ((12,) if tier == 'quick' or sc.base != 'zero' or sc.prev != 'none' or sc.hours != (15, 4) else (12, 30)):
             us.append(Unit('L2_n%d_%s' % (n, sc.name()), l2_fn(sc, n, keys), l2_replay(sc, n, keys), l2_setup, FUNCS_L2,
                            'raw 8760-hour profile: base %s, symbolic rejection peak magnitude on day %s and extraction peak on day %s of month %d, '
                            'previous-month last-day load: %s; magnitudes all reals in (0, 1e6] W; horizon %d months'
